@@ -204,7 +204,12 @@ KINDS = {
     "precision": [("p", "o.precision(Some(kani::any()));")],
     "fill": [("*", "o.fill('*');"), ("0", "o.fill('0');"), ("e-acute", "o.fill('\\u{e9}');"), ("max", "o.fill('\\u{10FFFF}');")],
 }
-KIND_TEXT = {"default": "all other options default", "hex": "hex-debug x? | X?", "sign": "sign + | -", "zero": "zero-pad flag",
+KINDS["mix"] = KINDS["default"] + KINDS["hex"] + KINDS["width"]
+KINDS["allkinds"] = [v for k in ("default", "hex", "sign", "zero", "align", "width", "precision", "fill") for v in KINDS[k]]
+REAL_KINDS = ["default", "hex", "sign", "zero", "align", "width", "precision", "fill"]
+KIND_TEXT = {"mix": "all other options default | hex-debug x? | X? | every width w: u16",
+             "allkinds": "each option kind in turn: default, x?, X?, +, -, 0, <, >, ^, every width, every precision, 4 fills",
+             "default": "all other options default", "hex": "hex-debug x? | X?", "sign": "sign + | -", "zero": "zero-pad flag",
              "align": "alignment < | > | ^", "width": "every width w: u16", "precision": "every precision p: u16",
              "fill": "fill in {'*','0',U+E9,U+10FFFF}"}
 BOUND_OPTS = "formatter flags: alternate fixed per harness, one other option kind at a time (width/precision values symbolic, fill sampled)"
@@ -324,8 +329,11 @@ def builder_programs(tier):
             ("ob_fail_first_fin", [], "opt", FIN, dict(failing=True)),
             ("ob_fail_next_fne", ["Tiny"], "opt", FNE, dict(failing=True)),
         ]
-        for k in KINDS:
-            if k != "default":
+        if not alt and tier == "quick":
+            # flat mode is cheap (no adapter): every option kind in one obligation
+            specs.append(("ob_first_opt_fin_allkinds", [], "opt", FIN, dict(kind="allkinds")))
+        else:
+            for k in REAL_KINDS[1:]:
                 specs.append(("ob_first_opt_fin_" + k, [], "opt", FIN, dict(kind=k)))
                 if tier == "thorough":
                     specs.append(("ob_next_opt_fne_" + k, ["Tiny"], "opt", FNE, dict(kind=k)))
@@ -565,15 +573,15 @@ def st(name, kind, fields=(), generics=("", "", "")):
     return Ty(name, [Sh(name, kind, fields)], generics=generics)
 
 
-QUICK_CFG = [("flat", False, "default"), ("pretty", True, "default"), ("flat_hex", False, "hex"), ("flat_width", False, "width")]
+QUICK_CFG = [("flat", False, "mix"), ("pretty", True, "default")]
 PRETTY_OPT_QUICK = [("pretty_hex", True, "hex"), ("pretty_width", True, "width")]
 
 
 def all_cfg():
     out = []
-    for k in KINDS:
+    for k in REAL_KINDS:
         out.append(("flat" if k == "default" else "flat_" + k, False, k))
-    for k in KINDS:
+    for k in REAL_KINDS:
         out.append(("pretty" if k == "default" else "pretty_" + k, True, k))
     return out
 
@@ -592,8 +600,13 @@ def skip_subsets(kind, n, prefix="S"):
 
 def type_programs(tier):
     P = []
-    cfg = all_cfg() if tier == "thorough" else QUICK_CFG
-    cfg_po = all_cfg() if tier == "thorough" else QUICK_CFG + PRETTY_OPT_QUICK
+    # flat mode is cheap: the option kinds share one obligation; pretty mode: one obligation per kind (they isolate finding 2)
+    if tier == "thorough":
+        cfg = [("flat", False, "allkinds"), ("pretty", True, "default")] + PRETTY_OPT_QUICK
+        cfg_po = [("flat", False, "allkinds")] + [c for c in all_cfg() if c[1]]
+    else:
+        cfg = QUICK_CFG
+        cfg_po = QUICK_CFG + PRETTY_OPT_QUICK
 
     def add(key, tys, title=None, configs=None, **kw):
         P.append(type_program(key, title, tys, configs or cfg, **kw))
@@ -604,15 +617,16 @@ def type_programs(tier):
     add("s_tuple", [st("T1", "tuple", [O()]), st("T2", "tuple", [O(), O()]), st("T3", "tuple", [O(), O(), O()])],
         configs=cfg_po, control=True)
     add("s_named", [st("N1", "named", [O("a")]), st("N2", "named", [O("a"), O("b")]), st("N3", "named", [O("a"), O("b"), O("c")])],
-        configs=cfg_po)
+        configs=cfg_po if tier == "thorough" else QUICK_CFG + [("pretty_width", True, "width")])
     # ---- multi-line and symbolic-byte field values
     add("s_tuple_nl", [st("TN", "tuple", [Fd(None, "NL"), O()])])
     add("s_named_nl", [st("NN", "named", [O("a"), Fd("b", "NL")])])
     add("s_byte", [st("TB", "tuple", [Fd(None, "B")]), st("NB", "named", [Fd("a", "B")])],
         configs=[c for c in cfg if not c[1]] if tier == "quick" else cfg)
     # ---- enums of all variant kinds
-    variants = [Sh("U", "unit"), Sh("T0", "tuple"), Sh("B0", "named"), Sh("T1", "tuple", [O()]), Sh("T2", "tuple", [O(), O()]),
-                Sh("N1", "named", [O("a")]), Sh("N2", "named", [O("a"), O("b")])]
+    variants = [Sh("U", "unit"), Sh("T0", "tuple"), Sh("B0", "named"),
+                Sh("T1", "tuple", [O()]), Sh("T2", "tuple", [O(), O()]), Sh("T3", "tuple", [O(), O(), O()]),
+                Sh("N1", "named", [O("a")]), Sh("N2", "named", [O("a"), O("b")])]     # chunks of 3: field-less | tuple | named
     add("e_all_kinds", [Ty("E", variants, is_enum=True)], configs=cfg_po)
     # ---- nesting depth 2 (a derive_more::Debug type inside another; both std in the reference)
     inner_t, inner_n = st("In", "tuple", [O()]), st("Im", "named", [O("x")])
@@ -629,23 +643,23 @@ def type_programs(tier):
     # a reference to a type parameter next to the parameter itself (std accepts it)
     add("g_ref_and_owned", [st("GR", "tuple", [Fd(None, "RT"), Fd(None, "T")], generics=("<'a, T>", "<'a, T>", "")),
                             st("GS", "named", [Fd("a", "T"), Fd("b", "RT")], generics=("<'a, T>", "<'a, T>", ""))],
-        configs=[c for c in cfg if c[0] in ("flat", "pretty")])
+        configs=[c for c in cfg if c[0] in ("flat", "pretty")])  # (does not expand on the tree this was written against)
     add("g_enum", [Ty("GE", [Sh("A", "tuple", [Fd(None, "T")]), Sh("B", "named", [Fd("x", "T")]), Sh("C", "unit")], is_enum=True,
                       generics=("<T>", "<T>", "::<OptProbe<0>>"))])
     # ---- raw identifiers
     add("raw_field_names", [st("RF", "named", [O("r#type"), O("r#in")]),
                             Ty("RE", [Sh("V", "named", [O("r#struct")])], is_enum=True)])
-    raw_cfg = cfg if tier == "thorough" else [c for c in QUICK_CFG if c[0] in ("flat", "pretty")]
+    raw_cfg = cfg
     add("raw_type_unit", [st("r#type", "unit")], configs=raw_cfg)
     add("raw_type_tuple", [st("r#struct", "tuple", [O()])], configs=raw_cfg)
     add("raw_type_named", [st("r#match", "named", [O("r#in")])], configs=raw_cfg)
     add("raw_variants", [Ty("E", [Sh("r#fn", "unit"), Sh("r#if", "tuple", [O()]), Sh("r#loop", "named", [O("r#in")])], is_enum=True)],
         configs=raw_cfg)
     # ---- skipped fields: all subsets
-    add("k_tuple2", skip_subsets("tuple", 2))
+    add("k_tuple2", skip_subsets("tuple", 2), configs=cfg_po if tier == "thorough" else cfg)
     add("k_named2", skip_subsets("named", 2))
-    add("k_tuple3", skip_subsets("tuple", 3), configs=cfg if tier == "thorough" else [c for c in QUICK_CFG if c[0] in ("flat", "pretty")])
-    add("k_named3", skip_subsets("named", 3), configs=cfg if tier == "thorough" else [c for c in QUICK_CFG if c[0] in ("flat", "pretty")])
+    add("k_tuple3", skip_subsets("tuple", 3), configs=cfg if tier == "thorough" else QUICK_CFG[:1])
+    add("k_named3", skip_subsets("named", 3), configs=cfg if tier == "thorough" else QUICK_CFG[:1])
     add("k_one_field", skip_subsets("tuple", 1, "T") + skip_subsets("named", 1, "N"))
     add("k_enum", [Ty("KE", [Sh("A", "tuple", [O(), O(attr="skip")]), Sh("B", "named", [O("a", "ignore"), O("b")]),
                              Sh("C", "tuple", [O(attr="skip")]), Sh("D", "named", [O("a", "skip")]), Sh("E", "tuple", [O()])], is_enum=True)])
@@ -743,7 +757,7 @@ def family(tier, seed):
     return Family(
         "C06", progs, common_src=COMMON,
         crate_attrs="#![feature(formatting_options)]",
-        kani_flags=["-Z", "function-contracts", "-Z", "stubbing"], unwind=UNWIND,
+        kani_flags=["-Z", "function-contracts", "-Z", "stubbing", "--no-assertion-reach-checks"], unwind=UNWIND,
         level="proof", harness_timeout=420,
         functions_under_contract=[
             "derive_more::__private::debug_tuple, DebugTuple::{field, finish, finish_non_exhaustive}, Padded::write_str (src/fmt.rs) -- "
